@@ -15,6 +15,8 @@ from tradingenv.contracts import ES, FutureChain
 from tradingenv.state import State
 from tradingenv.events import EventNewObservation
 from tradingenv.policy import AbstractPolicy
+from tradingenv.features import Feature
+import gymnasium
 from tradingenv.library import FeaturePrices, FeaturePortfolioWeight, FeatureSpread
 
 LEVEL = "exploration"
@@ -35,6 +37,25 @@ def obs_repr(o):
     if isinstance(o, (float, int, np.floating)):
         return hx(o)
     return type(o).__name__
+
+
+class Sessions(Feature):
+    """A user feature with per-episode state driven by the environment's own notifications: the number of new trading dates
+    and of steps seen so far in the episode (a session counter)."""
+
+    def __init__(self):
+        super().__init__(space=gymnasium.spaces.Box(0.0, 1000.0, (2,), float), save=True)
+        self.n_dates = 0
+        self.n_steps = 0
+
+    def process_EventNewDate(self, event):
+        self.n_dates += 1
+
+    def process_EventStep(self, event):
+        self.n_steps += 1
+
+    def parse(self):
+        return np.array([float(self.n_dates), float(self.n_steps)])
 
 
 # ---------------------------------------------------------------------------
@@ -81,7 +102,7 @@ def make_env(name, shift=0):
         cs = [ETF("A"), ETF("B")]
         tr = Transmitter(list(G), folds={"training-set": [G[0], G[-1]], "f2": [G[2], G[-1]]})
         tr.add_events([e for e in bar_events(G, cs, base=50.0, spread=1.0, step=3.0) if e.time not in (G[1], G[3])])
-        env = TradingEnv(BoxPortfolio(cs, -1.0, 1.5), state=[FeaturePrices(cs)], transmitter=tr, initial_cash=1000.0)
+        env = TradingEnv(BoxPortfolio(cs, -1.0, 1.5), state=[FeaturePrices(cs), Sessions()], transmitter=tr, initial_cash=1000.0)
         actions = [np.array([0.5, 0.25]), np.array([-0.25, 1.0])]
         bad = np.array([9.0, 9.0])
     elif name == "fees":
@@ -437,7 +458,7 @@ def run(tier, **kw):
                         {"part": "schedule", "pair": ["chain", 0, "chain", 1], "schedule": [0, 1, 0, 1, 1, 0, 0, 1]}])
     rep.assumptions = ["environments are constructed before the first interleaved call (contract clock at its import-time value)",
                        "the episode window is part of the configuration: no random episode start in these configurations",
-                       "decided for the library's own features/State; user-written features are outside any bounded check"]
+                       "decided for the library's own features/State and one session-counting feature driven by new-date / step notifications; other user-written features are outside any bounded check"]
     return rep.finish(replay)
 
 
